@@ -576,6 +576,10 @@ func (wg *WeightedAuthorizationModelGraph) calculateNodeWeightAndFixDependencies
 			weights[key] = Infinite
 		}
 	}
+	// a recursive relation without any other way to reach a terminal type can never be satisfied
+	if len(weights) == 0 {
+		return fmt.Errorf("%w: %s node does not have any terminal type to reach to", ErrInvalidModel, node.uniqueLabel)
+	}
 	node.weights = weights
 
 	wg.fixDependantEdgesWeight(nodeID, referenceNodeID, references, tupleCycleDependencies)
